@@ -78,4 +78,6 @@ def panel (f : Feat) : Panel :=
     prog := prog f,
     ctrl := .uc (Uc.por WIDTH HEIGHT 1 9 false) }
 
+attribute [driver_simp] W sendResolution init updateAchromatic updateChromatic updateFrame displayFrame updatePartial prog
+
 end EpdVerif.Drivers.Epd5in83b_v2
